@@ -380,3 +380,13 @@ Proof.
   intros Hd H. apply contains_spec in H. destruct c as [[x y] d]. destruct p as [qx qy].
   unfold probe_ok, sc_center_2x, sm_center_2x, sc_bbox, sat_sub_u32 in *. cbn [sc_tl sc_d px py tl sz sw sh] in *. lia.
 Qed.
+
+(* exactly opposite rounded normals (sweeps just below 180 deg): the Intersection is exactly one closed half plane -
+   the class predicate K18 is true there (det = 0) although nothing is wrong *)
+Theorem sector_opposite_normals_half_plane ps dl :
+  ps_op ps = OpIntersection -> ps_left ps = pneg (ps_right ps) ->
+  ps_contains ps dl = (0 <=? sm_odist (ps_right ps) dl).
+Proof.
+  intros Hop Hl. unfold ps_contains. rewrite Hop, Hl. cbn [sm_exec].
+  unfold sm_odist, sm_dot, pneg. cbn [px py]. lia.
+Qed.
